@@ -11,18 +11,18 @@ import "github.com/gobuffalo/plush/v5/helpers/hctx"
 // than or equal to `size`, `trail` will be returned
 // completely as is. Defaults to a `trail` of `...`.
 func Truncate(s string, opts hctx.Map) string {
-	if opts["size"] == nil {
-		opts["size"] = 50
+	size := 50
+	if v, ok := opts["size"].(int); ok {
+		size = v
 	}
-	if opts["trail"] == nil {
-		opts["trail"] = "..."
+	trail := "..."
+	if v, ok := opts["trail"].(string); ok {
+		trail = v
 	}
 	runesS := []rune(s)
-	size := opts["size"].(int)
 	if len(runesS) <= size {
 		return s
 	}
-	trail := opts["trail"].(string)
 	runesTrail := []rune(trail)
 	if len(runesTrail) >= size {
 		return trail
